@@ -35,31 +35,43 @@ def FarCommute (s : DSetData) : Prop :=
   ∀ i j d, i + 1 < j → j ≤ s.dim → 1 ≤ d → d ≤ s.size →
     s.opU j (s.opU i d) = s.opU i (s.opU j d)
 
-/-- a D-symbol as the library builds it: a complete D-set with commuting far operations,
-    the orbit tables computed by `collect_orbits`, one branching entry per orbit -/
-structure ValidSym (s : DSymData) : Prop where
+/-- symbol data whose orbit tables are the ones `collect_orbits` computes for the stored complete
+    D-set, with one branching entry per orbit (no commutation assumption: this is what e.g. a cover
+    built from an arbitrary sheet map satisfies) -/
+structure ValidTables (s : DSymData) : Prop where
   set : ValidSet s.dset
-  far : FarCommute s.dset
   index_eq : s.orbitIndex = (collectOrbits s.dset).index
   rs_eq : s.orbitRs = (collectOrbits s.dset).rs
   vs_size : s.orbitVs.size = s.orbitRs.size
 
+/-- a D-symbol as the library builds it: valid tables and commuting far operations -/
+structure ValidSym (s : DSymData) : Prop extends ValidTables s where
+  far : FarCommute s.dset
+
+theorem ValidTables.ofSimple {ds : DSetData} (h : ValidSet ds) : ValidTables (DSymData.ofSimple ds) :=
+  ⟨h, rfl, rfl, by simp [DSymData.ofSimple]⟩
+
 theorem ValidSym.ofSimple {ds : DSetData} (h : ValidSet ds) (hf : FarCommute ds) :
     ValidSym (DSymData.ofSimple ds) :=
-  ⟨h, hf, rfl, rfl, by simp [DSymData.ofSimple]⟩
+  ⟨ValidTables.ofSimple h, hf⟩
 
-theorem ValidSym.setV {s t : DSymData} (h : ValidSym s) {i d v : Nat} (ht : s.setV i d v = .ok t) :
-    ValidSym t := by
+theorem ValidTables.setV {s t : DSymData} (h : ValidTables s) {i d v : Nat} (ht : s.setV i d v = .ok t) :
+    ValidTables t ∧ t.dset = s.dset := by
   unfold DSymData.setV at ht
   split at ht
   · cases ht
   · split at ht
     · split at ht
       · cases ht
-        exact ⟨h.set, h.far, h.index_eq, h.rs_eq, by simpa using h.vs_size⟩
+        exact ⟨⟨h.set, h.index_eq, h.rs_eq, by simpa using h.vs_size⟩, rfl⟩
       · cases ht
     · cases ht
     · cases ht
+
+theorem ValidSym.setV {s t : DSymData} (h : ValidSym s) {i d v : Nat} (ht : s.setV i d v = .ok t) :
+    ValidSym t := by
+  obtain ⟨h1, h2⟩ := h.toValidTables.setV ht
+  exact ⟨h1, by rw [h2]; exact h.far⟩
 
 /-! ### out-of-range arguments -/
 
